@@ -566,7 +566,15 @@ class ObservableResource(Resource, metaclass=abc.ABCMeta):
                 # option are set per observation on the way out, and a
                 # CON notification is kept for retransmission, so every
                 # observation needs a message of its own.
-                response = response.copy()
+                try:
+                    response = response.copy()
+                except Exception as e:
+                    # What can be sent can not always be copied (eg. an
+                    # option value given as a memoryview); such a message is
+                    # sent as it is.
+                    pipe.log.warning(
+                        "Notification can not be copied, sending it as it is: %r", e
+                    )
 
                 # If block2 were to happen here, we'd store the full response
                 # here, and pick out block2:0.
